@@ -26,8 +26,11 @@ type Unit struct {
 }
 
 func (p *Program) newExec(unit string) *Exec {
+	defer func() {}()
 	x := &Exec{vc: newVC(unit), prog: p, inits: map[*Object]Value{}, globals: map[*ssa.Global]*Object{},
 		ghosts: map[string]*Object{}, counters: map[string]int{}, params: map[string]Value{}, unit: unit}
+	vcRef := x.vc
+	defBody = func(name string) string { return vcRef.bodies[name] }
 	for name, g := range p.contracts.Ghosts {
 		o := x.newObject(name, "ghost", nil)
 		o.Lazy = true
